@@ -149,6 +149,8 @@ type runOpts struct {
 	SmtLog    string
 	ConcCap   int
 	MaxWallS  int
+	Summaries map[string]*ssa.Function
+	UFMul     bool
 }
 
 type runResult struct {
@@ -181,11 +183,15 @@ func runEntry(prog *ssa.Program, fn *ssa.Function, o runOpts) *runResult {
 	tRun := time.Now()
 	for w := 0; w < o.Workers; w++ {
 		s := NewSolver(o.TimeoutMs)
+		if o.UFMul {
+			s.UFMul = true
+			s.Reset()
+		}
 		if o.SmtLog != "" && w == 0 {
 			f, _ := os.Create(o.SmtLog)
 			s.Log = f
 		}
-		exs[w] = &Explorer{prog: prog, entry: fn, solver: s, q: q, Reached: map[string]int{}, Errors: map[string]int{}, Panics: map[string]int{}, FuncsHit: map[string]int{}, InitFailures: map[string]string{}, ForkSites: map[string]int{}, Notes: map[string]int{}, MaxPaths: o.MaxPaths, ConcCap: o.ConcCap, Params: o.Params, Known: o.Known}
+		exs[w] = &Explorer{prog: prog, entry: fn, solver: s, q: q, Reached: map[string]int{}, Errors: map[string]int{}, Panics: map[string]int{}, FuncsHit: map[string]int{}, InitFailures: map[string]string{}, ForkSites: map[string]int{}, Notes: map[string]int{}, MaxPaths: o.MaxPaths, ConcCap: o.ConcCap, Params: o.Params, Known: o.Known, Summaries: o.Summaries}
 		wg.Add(1)
 		go func(ex *Explorer) { defer wg.Done(); ex.Run(); ex.solver.Close() }(exs[w])
 	}
@@ -204,6 +210,7 @@ func runEntry(prog *ssa.Program, fn *ssa.Function, o runOpts) *runResult {
 		ex.BoundHits += o.BoundHits
 		ex.Steps += o.Steps
 		ex.Merges += o.Merges
+		ex.ExactRechecks += o.ExactRechecks
 		ex.PathsWithAsserts += o.PathsWithAsserts
 		ex.Viol = append(ex.Viol, o.Viol...)
 		res.queries += o.solver.Queries
@@ -223,6 +230,10 @@ func runEntry(prog *ssa.Program, fn *ssa.Function, o runOpts) *runResult {
 		}
 		for k, v := range o.ForkSites {
 			ex.ForkSites[k] += v
+		}
+		for k, v := range o.UnknownSites {
+			ex.noteUnknown(k)
+			ex.UnknownSites[k] += v - 1
 		}
 		for k, v := range o.Notes {
 			ex.Notes[k] += v
